@@ -6,7 +6,7 @@ import storefamx
 import vlib
 
 PID = "C16"
-FILES = ["theories/Properties/C16.v", "theories/Examples/C16Examples.v"]
+FILES = ["theories/Properties/C16.v", "theories/Examples/C16Examples.v", "theories/Examples/C16Wirings.v"]
 
 
 def sys_families(sch):
@@ -18,13 +18,60 @@ def sys_families(sch):
     return fam
 
 
+def sys_levels(sch):
+    """root store -> (root carries the constraint, [(child store carrying it, extended)])"""
+    lv = {}
+    for s in sch.order:
+        d = sch.stores[s]
+        if any(k[0] == "SY" for k in d["cons"]):
+            r = sch.root(s)
+            has, cs = lv.get(r, (False, []))
+            if d["parent"] is None:
+                has = True
+            else:
+                cs = cs + [(s, d["ext"])]
+            lv[r] = (has, cs)
+    return lv
+
+
+def protects(levels, root, members):
+    """what the constraints of the family protect for a FLAGGED entity with child data in `members`
+    (Store/SystemProofs.v for the root store, Store/SystemChild.v for a child store: update needs the child data,
+    DeleteById reaches every child store that can load the entity - an extended one always can)
+    -> (update protected through which stores: 'all' | set of stores, delete protected)"""
+    has, cs = levels.get(root, (False, []))
+    if has:
+        return "all", True
+    upd = set()
+    dele = False
+    for c, ext in cs:
+        if c in members:
+            upd.add(c)
+            if members == {c}:
+                upd.add(root)   # the root store routes the update to the child store holding the entity
+            dele = True
+        elif ext:
+            dele = True
+    return upd, dele
+
+
+def restore_of(vetoes):
+    """(k, mode) of a restore step (harness store_c16w2.go; Store/SystemRestore.v) or None"""
+    for st, _, i in vetoes:
+        if st == "@rs":
+            v = bytes.fromhex(i).decode("latin-1") if i != "-" else "0:s"
+            k, _, m = v.partition(":")
+            return int(k), (m or "s")
+    return None
+
+
 def state_of(facts):
-    """(root,id) -> dict(flag, fields (F/C/CF facts of the entity))"""
+    """(root,id) -> dict(flag, fields (F/C/CF facts of the entity), members (child stores holding data))"""
     ents = {}
     for f in facts:
         p = f.split(":")
         if p[0] == "E":
-            ents.setdefault((p[1], p[2]), dict(flag="absent", fields=set()))
+            ents.setdefault((p[1], p[2]), dict(flag="absent", fields=set(), members=set()))
     for f in facts:
         p = f.split(":")
         if p[0] in ("F", "C", "CF") and (p[1], p[2]) in ents:
@@ -32,6 +79,8 @@ def state_of(facts):
             e["fields"].add(f)
             if p[0] == "F" and p[3] == "isSystem":
                 e["flag"] = p[4]
+            if p[0] == "C":
+                e["members"].add(p[3])
     return ents
 
 
@@ -81,9 +130,22 @@ def compare(a, b):
 def oracle(sch, txs, io, mo):
     out = []
     fam = sys_families(sch)
+    levels = sys_levels(sch)
+    child_only = ", ".join("%s (child of %s)" % (c, r) for r, (has, cs) in sorted(levels.items()) if not has for c, _ in cs)
     prev = {}
+    restored = ""
     for k, (t, a) in enumerate(zip(txs, io)):
         tsys, _, vetoes, ops = storefamx.parse_ops(t)
+        rs = restore_of(vetoes)
+        if rs is not None:
+            # the content was replaced underneath the stores (snapshot of the content after rs[0] steps): nothing to judge in
+            # this step itself - the rules below apply to whatever is present now
+            if "panic" in a["results"]:
+                out.append(("C16:panic", "restoring the snapshot panicked", k))
+                break
+            prev = state_of(a["facts"])
+            restored = " [after step %d restored the content of step %d, mode %s]" % (k, rs[0], rs[1])
+            continue
         modes = op_modes(vetoes, len(ops))
         # the context kind of every operation, from the case line alone: the base context of the transaction, or a system
         # context derived from it (GetSystemContext / NewSystemMutateContext / nested Db.Update) for this operation only
@@ -107,6 +169,7 @@ def oracle(sch, txs, io, mo):
         # (i) through an ordinary context no operation on a system entity of a constrained family succeeds; the stored flag
         # is followed through the operations of the transaction (a system-context operation may delete / re-create an id)
         flag_now = dict((key, e["flag"]) for key, e in prev.items())
+        memb_now = dict((key, set(e["members"])) for key, e in prev.items())
         derived_before = False
         for j, op in enumerate(ops):
             if j >= len(a["results"]):
@@ -116,19 +179,46 @@ def oracle(sch, txs, io, mo):
                 root = sch.root(op["store"])
                 ctxt = " (after a system context had been derived from the same context object earlier in the transaction)" \
                     if derived_before else ""
+                ctxt += restored
+                if not levels[root][0]:
+                    ctxt += " [the constraint is registered on the child store %s only]" % child_only
                 if op["kind"] == "C" and op["sys"]:
-                    deco = " [entity with Migrate=true and explicit timestamps]" if modes and modes[j][2] in "mx" else ""
-                    out.append(("C16:system-create-in-ordinary-context", "Create of %s %s with the system flag succeeded in a "
-                                "non-system context (op %d)%s%s" % (op["store"], op["id"], j, deco, ctxt), k))
+                    # refused when the store the create goes through has the constraint in its chain (its own or its parent's)
+                    if levels[root][0] or any(c == op["store"] for c, _ in levels[root][1]):
+                        deco = " [entity with Migrate=true and explicit timestamps]" if modes and modes[j][2] in "mx" else ""
+                        out.append(("C16:system-create-in-ordinary-context", "Create of %s %s with the system flag succeeded "
+                                    "in a non-system context (op %d)%s%s" % (op["store"], op["id"], j, deco, ctxt), k))
                 elif op["kind"] in ("UP", "D") and flag_now.get((root, op["id"])) == "b1":
-                    what = "Update" if op["kind"] == "UP" else "DeleteById"
-                    out.append(("C16:system-%s-in-ordinary-context" % ("update" if op["kind"] == "UP" else "delete"),
-                                "%s through %s of system entity %s %s succeeded in a non-system context (op %d)%s"
-                                % (what, op["store"], root, op["id"], j, ctxt), k))
+                    upd, dele = protects(levels, root, memb_now.get((root, op["id"]), set()))
+                    if op["kind"] == "UP" and (upd == "all" or op["store"] in upd):
+                        out.append(("C16:system-update-in-ordinary-context",
+                                    "Update through %s of system entity %s %s succeeded in a non-system context (op %d)%s"
+                                    % (op["store"], root, op["id"], j, ctxt), k))
+                    elif op["kind"] == "D" and dele:
+                        out.append(("C16:system-delete-in-ordinary-context",
+                                    "DeleteById through %s of system entity %s %s succeeded in a non-system context (op %d)%s"
+                                    % (op["store"], root, op["id"], j, ctxt), k))
+            # (iii) ordinary entities are unaffected by the constraint: an update / delete of an entity whose stored flag is
+            # NOT set (and a create without the flag) that the machine accepts - it accepts exactly what the machine without
+            # any system constraint accepts: ordinary_*_unaffected - must not be refused by the implementation
+            mres = mo[k]["results"] if k < len(mo) else []
+            if op["kind"] in ("C", "UP", "D") and sch.root(op["store"]) in fam and a["results"][j] == "err" and \
+                    j < len(mres) and mres[j] == "ok" and list(a["results"][:j]) == list(mres[:j]):
+                root = sch.root(op["store"])
+                key_ = (root, op["id"])
+                plain = (op["kind"] == "C" and not op["sys"]) or \
+                        (op["kind"] == "UP" and key_ in flag_now and flag_now[key_] != "b1")
+                if plain:
+                    out.append(("C16:ordinary-entity-affected", "%s through %s of ORDINARY entity %s %s (stored flag %s) was refused "
+                                "in a %s context (op %d); without the constraint it succeeds%s"
+                                % ("Create" if op["kind"] == "C" else "Update", op["store"], root, op["id"],
+                                   flag_now.get(key_, "absent"), "system" if op_sys[j] else "non-system", j, restored), k))
             if ok and op["kind"] == "C":
                 flag_now[(sch.root(op["store"]), op["id"])] = "b1" if op["sys"] else "absent"
+                memb_now[(sch.root(op["store"]), op["id"])] = set() if sch.root(op["store"]) == op["store"] else {op["store"]}
             elif ok and op["kind"] == "D":
                 flag_now.pop((sch.root(op["store"]), op["id"]), None)
+                memb_now.pop((sch.root(op["store"]), op["id"]), None)
             if modes is not None and modes[j][0] in "snu":
                 derived_before = True
         # ... and the committed state shows every system entity untouched (also through cascades and child stores) when no
@@ -136,14 +226,17 @@ def oracle(sch, txs, io, mo):
         if not any(op_sys) and a["commit"]:
             for (root, i), e in prev.items():
                 if root in fam and e["flag"] == "b1":
+                    upd, dele = protects(levels, root, e["members"])
+                    note = restored + ("" if levels[root][0] else " [the constraint is registered on the child store %s only]" % child_only)
                     e2 = cur.get((root, i))
                     if e2 is None:
-                        out.append(("C16:system-entity-removed-in-ordinary-context", "system entity %s %s disappeared in a "
-                                    "committed non-system transaction" % (root, i), k))
-                    elif e2["fields"] != e["fields"]:
+                        if dele:
+                            out.append(("C16:system-entity-removed-in-ordinary-context", "system entity %s %s disappeared in a "
+                                        "committed non-system transaction%s" % (root, i, note), k))
+                    elif e2["fields"] != e["fields"] and (upd == "all" or upd):
                         out.append(("C16:system-entity-changed-in-ordinary-context", "system entity %s %s changed in a committed "
-                                    "non-system transaction: +%s -%s" % (root, i, sorted(e2["fields"] - e["fields"])[:4],
-                                                                         sorted(e["fields"] - e2["fields"])[:4]), k))
+                                    "non-system transaction: +%s -%s%s" % (root, i, sorted(e2["fields"] - e["fields"])[:4],
+                                                                         sorted(e["fields"] - e2["fields"])[:4], note), k))
         # (ii) the flag of an entity never changes between its creation and its deletion (any store, any context)
         created = set((sch.root(op["store"]), op["id"]) for j, op in enumerate(ops)
                       if op["kind"] == "C" and j < len(a["results"]) and a["results"][j] == "ok")
@@ -198,11 +291,14 @@ def main(argv):
     c.assumptions = ["bbolt rollback restores the previous content (trusted; observed by the full traversal after every transaction)",
                      "entities embed boltz.BaseExtEntity and persist it with SetBaseValues (the library's convention); stores do not "
                      "declare a field named isSystem of their own",
-                     "the theorems are about the family of a ROOT store carrying the constraint (the constraint of the harness wirings "
-                     "and of the library's users is registered on root stores)"]
+                     "the constraint is registered on a root store (theorems (1)-(4), wf_system_b) or on a child store whose isSystem "
+                     "symbol is the one granted by its parent, i.e. the flag lives in the root entity bucket (theorem (5), "
+                     "wf_system_child_b); a child store keeping its own isSystem value in its extension data is not modelled",
+                     "a restore step replaces the whole bolt file by a snapshot taken earlier in the same history (Db.StreamToWriter); "
+                     "the model counterpart is state := state after step k (Store/SystemRestore.v)"]
     proof_ok = c.proof_step(FILES)
     storefamx.run_family_x(
-        c, "c16", 1500, 20000, compare, oracle,
+        c, "c16", 2000, 24000, compare, oracle,
         "adaptive seeded histories (2-9 transactions x 1-3 ops; 45% system contexts, system flag on ~40% of creates; create / full and "
         "field-checker update / delete / link ops through the constrained root store, its plain (idx: emp+mgr) or extended (casc: b+bx) "
         "child store and unconstrained stores, cascade deletes reaching system entities; updates carry an IsSystem flag that tries to flip "
@@ -216,7 +312,16 @@ def main(argv):
         "update of a system entity and commits (the whole bolt file is dumped before and after the refused operation inside "
         "the transaction: nothing may differ), entities are created / updated with Migrate=true + explicit timestamps and tags. "
         "Model counterpart Store/SystemMixed.v (per-operation context kind, swallowed refusals continue from the unchanged "
-        "state). Non-trivial: the history updates or deletes an existing system entity of a constrained family, or a refusal "
+        "state). Second strengthening (store_c16w2.go): ~45% of the histories use wirings whose constraint sits on a CHILD store "
+        "only (c16cp plain child + sibling child, c16cx extended child) or on root AND child (c16bo), with cascades into the "
+        "family through the root's and through the child's own fk; the oracle follows Store/SystemChild.v (a child-only "
+        "constraint protects the flagged entities the child store holds: update needs child data, DeleteById reaches every "
+        "child store that can load the entity). ~34% of the histories contain RESTORE steps: the database content is replaced "
+        "underneath the stores by the snapshot streamed after step k of the same history - RestoreSnapshot / RestoreFromReader "
+        "on the same stores, a snapshot file made by Db.Snapshot, a second node whose stores were initialised on an empty "
+        "database, a swapped file, a restart with freshly built stores - followed (65%) by an ordinary transaction that starts "
+        "with an update / delete of a system entity present now. Model counterpart Store/SystemRestore.v (state := state after "
+        "step k). Non-trivial: the history updates or deletes an existing system entity of a constrained family, or a refusal "
         "was swallowed.",
         nontrivial=nontrivial)
     if not proof_ok:
